@@ -46,6 +46,13 @@ Msgs2 == {M("join", "a"), M("joinp", "a"), M("leave", "a"), M("join", "b"), M("l
 Batches2 == Singles(Msgs2)
 Watched2 == {"a", "temp_2"}
 
+MsgsT2 == {M("join", "a"), M("leave", "a"), M("join", "b"), M("leave", "b"), G("new", 1, 0), G("new", 2, 0),
+           M("invite", "a"), G("invite", 2, 0), M("say", "a"), M("say", "temp_1"), M("odd", "a"), M("test", "-"),
+           M("nlon", "-"), M("joinp", "b")}
+BatchesT2 == Singles(MsgsT2) \cup { <<M("test", "-"), M("join", "a")>>, <<G("new", 1, 0), M("say", "temp_1")>>,
+                                    <<M("join", "a"), M("say", "a")>>, <<M("leave", "a"), M("join", "a")>>,
+                                    <<M("join", "b"), M("leave", "a")>>, <<M("test", "-"), G("new", 2, 0)>> }
+
 \* ---- the deviations D0-D3 one at a time (tiny)
 MsgsD == {M("join", "a"), M("test", "-")}
 BatchesD == Singles(MsgsD)
